@@ -435,10 +435,12 @@ class Exec:
     def spec_env(self, names, override=None):
         env = {}
         for n, (kind, op, isaddr) in names.items():
-            if op['k'] in ('reg', 'param', 'freevar') and op['name'] not in self.env and not (override and op['name'] in override):
+            if kind != 'headexpr' and op['k'] in ('reg', 'param', 'freevar') and op['name'] not in self.env and not (override and op['name'] in override):
                 continue
             try:
-                if override and op['k'] == 'reg' and op['name'] in override:
+                if kind == 'headexpr':
+                    v = self.head_eval(op, override or {})
+                elif override and op['k'] == 'reg' and op['name'] in override:
                     v = override[op['name']]
                 else:
                     v = self.val(op)
@@ -502,6 +504,13 @@ class Exec:
         for ph in phis:
             if ph.get('comment'):
                 names[ph['comment']] = ('phi', {'k': 'reg', 'name': ph['name'], 'type': ph['type']}, False)
+        # source variables that are pure functions of the head's phis (the `i` of `for i, x := range s`
+        # is rangeindex+1, computed in the head block): visible to invariants as that expression
+        headdefs = {x.get('name') for x in blk['instrs'] if x.get('name') and x['op'] == 'BinOp'}
+        for b2 in sorted(L['body']):
+            for x in self.fn['blocks'][b2]['instrs']:
+                if x['op'] == 'DebugRef' and x['var'] not in names and not x['isaddr'] and x['x']['k'] == 'reg' and x['x']['name'] in headdefs:
+                    names[x['var']] = ('headexpr', x['x'], False)
         entry_heap = self.heap.copy()
         env_entry = self.spec_env(names, override=entry_vals)
         st = LoopState()
@@ -534,16 +543,36 @@ class Exec:
                 raise OutOfSubset('invariant of loop %d in %s: %s' % (L['ordinal'], self.fnkey, e))
             self.oblige('inv.init', g, label='L%d.%s' % (L['ordinal'], lab or k), text=txt)
         # 2. havoc
+        st.locs = {}
         if lc['assigns'] is not None:
-            mod = self.assigns_keys(lc['assigns'], evE)
+            from .calls import assign_targets
+            targets = {}
+            try:
+                for (ast, txt) in lc['assigns']:
+                    for (key, loc) in assign_targets(self, ast, evE):
+                        targets.setdefault(key, []).append(loc)
+            except SpecError as e:
+                raise OutOfSubset('assigns of loop %d in %s: %s' % (L['ordinal'], self.fnkey, e))
+            mod = set(targets.keys())
+            # allocation counters and local temporaries touched in the body are always havocked
+            for key in self.loop_modset(h):
+                if key[0] == 'alloc' or (key[0] == 'cell'):
+                    mod.add(key)
+            for key, locs in targets.items():
+                if all(l is not None for l in locs) and key[0] in ('f', 'el', 'cell', 'mdom', 'mval', 'msize'):
+                    st.locs[key] = locs
         else:
             mod = self.loop_modset(h)
         st.mod = mod
         newheap = entry_heap.copy()
+        fr = z3.Const('lf_r', z3.IntSort())
         for key in sorted(mod, key=str):
             nv = V.fresh_heap_const(key, '%sL%d' % (self.tag, L['ordinal']))
             if key[0] == 'alloc':
                 self.hyp(nv >= entry_heap.get(key))
+            if key in st.locs:
+                oldv = entry_heap.get(key)
+                self.hyp(z3.ForAll([fr], z3.Implies(z3.And(*[fr != l for l in st.locs[key]]), nv[fr] == oldv[fr]), patterns=[nv[fr]]))
             newheap.set(key, nv)
         # frame for objects allocated at loop entry is NOT automatic: invariants must state it
         self.heap = newheap
@@ -570,6 +599,21 @@ class Exec:
         else:
             st.variant = None
         st.entry_vals = entry_vals
+
+    def head_eval(self, op, override):
+        if op['k'] == 'const':
+            return self.w.const(op)
+        if op['k'] == 'reg':
+            if op['name'] in override:
+                return override[op['name']]
+            d = self.find_def(op['name'])
+            if d is not None and d['op'] == 'BinOp' and d['tok'] in ('+', '-'):
+                x = self.head_eval(d['x'], override)
+                y = self.head_eval(d['y'], override)
+                return x + y if d['tok'] == '+' else x - y
+            if d is not None and d['op'] == 'Phi' and op['name'] in self.env:
+                return self.env[op['name']]
+        return self.val(op)
 
     def top_entry_heap(self):
         return self.V.top_entry_heap
@@ -601,9 +645,21 @@ class Exec:
             self.oblige('decreases', z3.And(st.variant >= 0, nv < st.variant), label='L%d' % st.ordinal, text=st.lc['decreases'][1])
         # frame of the loop's assigns if given explicitly
         if st.lc['assigns'] is not None:
+            fr = z3.Const('lf_r', z3.IntSort())
+            from .calls import alloc_key_of
             for key in self.heap.d:
-                if key not in st.mod and not self.heap.get(key).eq(st.head_heap.get(key)):
+                if self.heap.get(key).eq(st.head_heap.get(key)):
+                    continue
+                if key not in st.mod:
                     self.oblige('loopframe', self.heap.get(key) == st.head_heap.get(key), label='L%d.%s' % (st.ordinal, '_'.join(map(str, key))))
+                elif key in st.locs:
+                    ak = alloc_key_of(key)
+                    conds = [fr != l for l in st.locs[key]]
+                    if ak is not None:
+                        # objects allocated inside the iteration are not constrained by the frame
+                        conds.append(fr <= st.head_heap.get(ak))
+                    self.oblige('loopframe', z3.ForAll([fr], z3.Implies(z3.And(*conds), self.heap.get(key)[fr] == st.head_heap.get(key)[fr])),
+                                label='L%d.%s' % (st.ordinal, '_'.join(map(str, key))), text='loop assigns only the named locations')
         self.reach = save_reach
 
     def assigns_keys(self, items, ev):
